@@ -1,7 +1,7 @@
 SPECIFICATION TSpec
 CONSTANTS
-  TolNum = 0
-  TolDen = 1
+  TolNum = 390625
+  TolDen = 64
   Scenes = {}
   MaxIter = 12
   MaxSteps = 400
